@@ -168,10 +168,12 @@ class Honest:
         self.owner = rng.choice(pool)
         init, present = gen_ops(rng, [], rng.randrange(1, 4))
         subprocess.run([sys.executable, "-B", STEPPER] + init, cwd=self.work, check=True, capture_output=True)
-        if present and rng.random() < 0.3:
+        opts = self.opts = opts or {"exclude": None, "lstrip": None, "base": False}
+        if present and rng.random() < 0.3 and not opts["exclude"]:
+            # (not with custom exclude patterns: a directory link would make an excluded file reachable under a
+            # second, not excluded, name, and the history would no longer be an honest one)
             os.symlink(sorted(present)[0].split("/")[0], os.path.join(self.work, "alias"))
         cwd = os.getcwd()
-        opts = self.opts = opts or {"exclude": None, "lstrip": None, "base": False}
         kw = {}
         if opts["exclude"]:
             kw["exclude_patterns"] = list(opts["exclude"][0])
